@@ -105,6 +105,18 @@ def extra_forms():
     return E
 
 
+FIXED_TOKENS = [
+    ['B', 'T', 'B', 'matmat', 'gu', 'matvec', 'gv', 'inner'],       # wide x tall matrix product
+    ['B', 'B', 'T', 'matmat', 'tr', 'u', '*', 'v', '*'],            # tall x wide
+    ['B', 'T', 'B', 'matmat', 'det', 'u', '*', 'v', '*'],
+    ['B', 'gu', 'matvec', 'B', 'gv', 'matvec', 'inner'],            # (B grad u) . (B grad v): vectors of length Dim+1
+    ['B', 'T', 'B', 'T', 'minner', 'v', '*'],
+    ['A', 'J', 'matmat', 'Jinv', 'matmat', 'tr', 'u', '*', 'v', '*'],
+    ['gu', 'gv', 'outer', 'A', 'minner'],
+    ['Hu', 'Hv', 'matmat', 'tr'],
+]
+
+
 def run(ctx):
     ctx.rule = ('one case = one variational form (TLC-generated token program, universe form or pass-specific form) whose '
                 'abstract denotation, raw expression DAG and finalized program are evaluated by TLC in K random GF(p) '
@@ -138,6 +150,13 @@ def run(ctx):
                 continue
             seen.add(key)
             items.append({'kind': 'gen', 'tokens': f['tokens'], 'dim': f['dim'], 'bilinear': f['bilinear']})
+    # named token programs that must always be in the sample (the generator's random walk may miss them)
+    for t in FIXED_TOKENS:
+        key = (2, tuple(t))
+        if key not in seen:
+            seen.add(key)
+            items.append({'kind': 'gen', 'tokens': list(t), 'dim': 2,
+                          'bilinear': any(x in ('u', 'ux', 'uy', 'uxp', 'uxx', 'uxy', 'gu', 'gup', 'Hu') for x in t)})
     cap = 60000 if ctx.thorough else 2500
     if len(items) > cap:
         rng = random.Random(ctx.seed)
